@@ -498,6 +498,49 @@ def run(ctx):
                     if nbad <= 6:
                         ctx.violation(dict(machine=name, input=list(data), sent=sent, framing_from_bytes=expect, field=field),
                                       'parser completed having consumed a different number of symbols than its length / count field says')
+    # ---- C'. chained input blocks: a library parser fed its input in two blocks (cut at every / a sample of positions) completes with
+    # exactly the consumption and the data of the single-block run ("... across pushed-back symbols and chained input blocks")
+    import cpppo
+    from cpppo import dotdict as _dd
+    nchain = 0
+    seen_mk = set()
+    per_name = {}
+    for name, mk, data, expect, field in lc:
+        if isinstance(expect, tuple) or expect is None or (name, bytes(data)) in seen_mk or len(data) < 2:
+            continue
+        seen_mk.add((name, bytes(data)))
+        per_name[name] = per_name.get(name, 0) + 1
+        if per_name[name] > (40 if ctx.thorough else 8):          # a few inputs of every machine rather than many of the first
+            continue
+        def run_blocks(blocks, mk=mk):
+            src = cpppo.chainable(); d = _dd(); pend = list(blocks)
+            try:
+                m = mk()
+                with m as mm:
+                    for _m, sta in mm.run(source=src, data=d):
+                        if sta is not None or src.peek() is not None:
+                            continue
+                        if not pend:
+                            break
+                        src.chain(pend.pop(0))
+                    term = mm.terminal
+                return ('ok', src.sent, bool(term), sorted((k, repr(v)) for k, v in d.items() if not k.endswith('peer')))
+            except Exception as e:
+                return ('fail', type(e).__name__)
+        whole = run_blocks([data])
+        if whole[0] != 'ok' or not whole[2]:
+            continue
+        cuts = range(1, len(data)) if ctx.thorough else sorted(set([1, len(data) // 2, len(data) - 1, 24, 25]) & set(range(1, len(data))))
+        for c in cuts:
+            nchain += 1
+            two = run_blocks([data[:c], data[c:]])
+            if two != whole:
+                nbad += 1
+                if nbad <= 6:
+                    ctx.violation(dict(machine=name, input=list(data), cut=c, whole=repr(whole)[:300], two_blocks=repr(two)[:300]),
+                                  'a parser fed its input in two chained blocks completes differently from the single-block run')
+                break
+    cov['chained_block_runs'] = nchain
     # ---- D. the command parsers take their limit from the header's length FIELD (enip.length), also when the collected payload
     # (enip.input) is longer - the way client.py runs them: path='enip', source = the payload bytes
     import cpppo
